@@ -17,6 +17,7 @@ import (
 	"github.com/miekg/dns"
 	"github.com/semihalev/sdns/internal/dnsname"
 	"github.com/semihalev/sdns/internal/dnsutil"
+	"github.com/semihalev/sdns/internal/verifhook"
 )
 
 // IsSupportedDSDigest reports whether the given DS digest type is
@@ -331,6 +332,7 @@ func runDSDigestMatch(
 	if release != nil {
 		defer release()
 	}
+	verifhook.Count("dnssec.dsdigest")
 	return dsDigestMatches(key, digestType, want), nil
 }
 
@@ -782,6 +784,7 @@ func runSignatureVerification(
 // alg-7/alg-10 ZSKs, exponent 2^32+1 — keep the raw modexp path inside that
 // verifier, so they validate instead of bogusing out.
 func cryptoVerify(k *dns.DNSKEY, sig *dns.RRSIG, set []dns.RR) error {
+	verifhook.Count("dnssec.signature")
 	if verifySignatureSupported(k.Algorithm) {
 		return verifySignature(k, sig, set)
 	}
